@@ -311,6 +311,40 @@ func c12Enum(c *mc.Ctx, yield func(c12Spec)) {
 	}
 }
 
+// c12Boundary classifies, for a variable-length fixture, the interval the limit starts counting in (the one
+// holding the range start for a limit from the start, the range end for a limit from the end): "clean" when
+// all of its records are in range, "empty" when none is, "partial" when some are.
+func c12Boundary(f *fixture, start, end time.Time, fromStart bool, U []qrow) string {
+	tf := tfDur(f.TF)
+	b := start
+	if !fromStart {
+		b = end
+	}
+	if b.Equal(world.MaxTime) || b.Unix() <= 0 {
+		return "boundary:clean"
+	}
+	ist := intervalStart(b, tf, time.UTC)
+	inIv := func(t time.Time) bool { return !t.Before(ist) && t.Before(ist.Add(tf)) }
+	stored, in := 0, 0
+	for _, t := range f.Times {
+		if inIv(t) {
+			stored++
+		}
+	}
+	for _, r := range U { // the rows of the unlimited query over the same range
+		if inIv(r.t) {
+			in++
+		}
+	}
+	switch {
+	case stored == in:
+		return "boundary:clean"
+	case in == 0:
+		return "boundary:empty"
+	}
+	return "boundary:partial"
+}
+
 func c12Run(c *mc.Ctx, s c12Spec) {
 	f := &fixtures[s.Fix]
 	w, err := f.build()
@@ -368,6 +402,9 @@ func c12Run(c *mc.Ctx, s c12Spec) {
 				sym = "too-few-rows"
 			case len(got) > len(want):
 				sym = "too-many-rows"
+			}
+			if f.Variable {
+				dir += "|" + c12Boundary(f, start, end, fromStart, U)
 			}
 			c.Violate(sym+"|"+rt+"|"+dir, fmt.Sprintf("%s: limit %d %s over [%s, %s] returned %s; the unlimited query returns %s", f.Name, n, dir,
 				start.Format("2006-01-02T15:04:05.999999999"), end.Format("2006-01-02T15:04:05.999999999"), fmtRows(got), fmtRows(U)))
